@@ -39,6 +39,76 @@ def explain_stalls(sl):
             sl.violations[i]["detail"] += f" — and the model disagrees with the run ({d.get('cat')}: {str(d.get('model'))[:200]})"
 
 
+def _sleepers_worker(spec):
+    """an UNTRACED tree (the configured stop-condition objects themselves, not the tracer's pass-throughs) stepped by
+    hand with hibernation on: a deme that is asleep when a step begins is the same afterwards — recorded metaepochs,
+    evaluations, generations, activity"""
+    import pyhms.tree as T
+    from pyhms.config import TreeConfig
+
+    from ..common import RunTimeout, is_env_crash, run_limit
+
+    found = []
+    slept = 0
+    try:
+        with run_limit():
+            o = runs.build(spec, None, plain="callable")
+            opts = {"random_seed": spec["seed"], "hibernation": True}
+            tree = T.DemeTree(TreeConfig(o["levels"], o["gsc"], o["sm"], options=opts, config_class_to_deme_class=o["custom"]))
+            steps = 0
+            while not tree._gsc(tree) and steps < spec["max_steps"]:
+                before = {}
+                for _, d in tree.all_demes:
+                    if d._hibernating and d.is_active:
+                        before[d.id] = (d, len(d._history), int(d.metaepoch_count), int(d.n_evaluations), len(d.history))
+                tree.run_step()
+                steps += 1
+                for did, (d, nh, mc, ne, ng) in before.items():
+                    slept += 1
+                    now = (len(d._history), int(d.metaepoch_count), int(d.n_evaluations), len(d.history))
+                    if now != (nh, mc, ne, ng) or not d.is_active:
+                        if not found:
+                            found.append(f"metaepoch {steps}: deme {did} ({type(d).__name__}, local stop condition {type(d._lsc).__name__}) was asleep when the step began; recorded metaepochs / metaepoch count / evaluations / generations went from {(nh, mc, ne, ng)} to {now}, active: {d.is_active}")
+    except RunTimeout as e:
+        return {"status": "env", "detail": str(e)}
+    except Exception as e:  # noqa: BLE001
+        return {"status": "env" if is_env_crash(e) else "crash", "detail": f"{type(e).__name__}: {e}"}
+    return {"status": "ok", "found": found, "slept": slept}
+
+
+def plain_sleepers(ctx, n, salt):
+    from ..common import Slice, pmap
+
+    sl = Slice("untraced trees stepped by hand, hibernation on (a deme asleep at the start of a step is unchanged after it)")
+    n = ctx.boost(n) if hasattr(ctx, "boost") else n
+    rng = ctx.rng(salt)
+    specs = []
+    lscs = [{"kind": "MetaepochLimit", "limit": 3}, {"kind": "MetaepochLimit", "limit": 6}, {"kind": "DontStop"}, {"kind": "AllChildrenStopped"}, {"kind": "FitnessSteadiness", "max_deviation": 0.5, "n_metaepochs": 2}]
+    for _ in range(n):
+        nlev = int(rng.choice([2, 3, 3]))
+        spec = runs.rand_spec(rng, nlev=nlev, hibernation=True, engines={0: ["sea", "de", "shade", "ga"], 1: ["sea", "de", "cma", "shade"], 2: ["sea", "cma", "local"]},
+                              lsc={l: lscs[int(rng.integers(len(lscs)))] for l in range(nlev - 1)}, gsc={"kind": "MetaepochLimit", "limit": 9}, max_steps=9, cutoff=None)
+        if spec["gsc"]["kind"] == "User":
+            spec["gsc"] = {"kind": "MetaepochLimit", "limit": 9}
+        specs.append(spec)
+    for spec, r in zip(specs, pmap(_sleepers_worker, specs, chunksize=2)):
+        if r["status"] == "env":
+            sl.skipped += 1
+            continue
+        if r["status"] == "crash":
+            sl.violations.append({"signature": "C18/run-crashed", "detail": r["detail"], "replay": {"spec": spec}})
+            continue
+        sl.cases += 1
+        sl.count("deme-steps-asleep", r["slept"])
+        if r["slept"]:
+            sl.nontrivial.add(runs.spec_id(spec))
+        for m in r["found"]:
+            sl.violations.append({"signature": "C18/hibernating-deme-changed", "detail": m, "replay": {"spec": spec}})
+    if specs:
+        sl.sample(runs.describe(specs[0]))
+    return sl
+
+
 def run(ctx):
     mon = runs.monitor_batch(ctx, PID, ctx.size(250, 3000), force=FORCE)
     explain_stalls(mon)
@@ -54,6 +124,7 @@ def run(ctx):
         # NaN is a legal fitness: a sleeping deme must not evaluate (nor change) there either
         runs.nan_monitor_batch(ctx, PID, ctx.size(60, 600), salt=67, name="traced-runs-monitor-C18(objective with NaN holes, hibernation, NBC generators)", force=_nan_hib),
         interleaved_options(ctx, ctx.size(16, 200), 69),
+        plain_sleepers(ctx, ctx.size(40, 500), 71),
     ]
 
 
